@@ -278,7 +278,7 @@ def plan(prop, tier, seed):
     if prop == "C16":
         legs.append(lambda: recipe_leg("RecipeLife", 5 if q else 6, 16, REALISTIC, seed))
         legs.append(lambda: trace_leg())
-    if prop in ("C08", "C09", "C15", "C16", "C17", "C04", "C03", "C19", "C07"):
+    if prop in ("C08", "C09", "C15", "C16", "C17", "C04", "C03", "C19", "C07", "C11"):
         legs.append(lambda: recipe_leg("RecipeProg", 3 if q else 4, 16, REALISTIC, seed))
         if not q:
             legs.append(lambda: recipe_leg("RecipeProg", 3, 16, DECIMAL, seed, tag="dec"))
